@@ -8,6 +8,9 @@ package main
 //
 //   N1  `if init; cond { … }`        →  `init` ; `if cond { … }`
 //       (also `else if init; cond`   →  `else { init; if cond … }`)
+//   N8  `for i := 0; i < len(X); i++ { B }`   →  `for i := range X { B }`   (B assigns neither i nor X)
+//   N9  `switch { case A: S; case B: T; default: U }`  →  `if A { S } else if B { T } else { U }`
+//       (no init, no fallthrough, no unlabelled break that would leave the switch)
 //   N3  `x, ok := strings.CutPrefix(x, C)` ; `if !ok { T }`
 //         →  `if !strings.HasPrefix(x, C) { T }` ; `x = x[len(C):]`
 //
@@ -161,10 +164,16 @@ func normStmt(info *types.Info, st ast.Stmt) []ast.Stmt {
 		normBlock(info, s)
 	case *ast.ForStmt:
 		normBlock(info, s.Body)
+		if rs := indexLoopAsRange(info, s); rs != nil {
+			return []ast.Stmt{rs}
+		}
 	case *ast.RangeStmt:
 		normBlock(info, s.Body)
 	case *ast.SwitchStmt:
 		normBlock(info, s.Body)
+		if ifs := taglessSwitchAsIf(s); ifs != nil {
+			return []ast.Stmt{ifs}
+		}
 	case *ast.TypeSwitchStmt:
 		normBlock(info, s.Body)
 	case *ast.SelectStmt:
@@ -251,4 +260,125 @@ func pkgOfFiles(info *types.Info, files []*ast.File) *types.Package {
 		}
 	}
 	return nil
+}
+
+// indexLoopAsRange (N8).
+func indexLoopAsRange(info *types.Info, f *ast.ForStmt) *ast.RangeStmt {
+	init, ok := f.Init.(*ast.AssignStmt)
+	if !ok || init.Tok != token.DEFINE || len(init.Lhs) != 1 || len(init.Rhs) != 1 {
+		return nil
+	}
+	iID, ok := init.Lhs[0].(*ast.Ident)
+	if !ok {
+		return nil
+	}
+	i := info.Defs[iID]
+	if tv := info.Types[init.Rhs[0]]; i == nil || tv.Value == nil || tv.Value.String() != "0" {
+		return nil
+	}
+	cond, ok := f.Cond.(*ast.BinaryExpr)
+	if !ok || cond.Op != token.LSS || identObj(info, cond.X) != i {
+		return nil
+	}
+	lc, ok := cond.Y.(*ast.CallExpr)
+	if !ok || len(lc.Args) != 1 {
+		return nil
+	}
+	if id, ok := lc.Fun.(*ast.Ident); !ok || id.Name != "len" {
+		return nil
+	}
+	if _, isBuiltin := info.Uses[lc.Fun.(*ast.Ident)].(*types.Builtin); !isBuiltin {
+		return nil
+	}
+	x := lc.Args[0]
+	xo := identObj(info, x)
+	if xo == nil {
+		return nil // only plain variables: a field or call could change between iterations
+	}
+	if t := info.TypeOf(x); t == nil {
+		return nil
+	} else if _, isSlice := t.Underlying().(*types.Slice); !isSlice {
+		return nil
+	}
+	post, ok := f.Post.(*ast.IncDecStmt)
+	if !ok || post.Tok != token.INC || identObj(info, post.X) != i {
+		return nil
+	}
+	bad := false
+	ast.Inspect(f.Body, func(n ast.Node) bool {
+		switch s := n.(type) {
+		case *ast.AssignStmt:
+			for _, l := range s.Lhs {
+				if o := identObj(info, l); o != nil && (o == i || o == xo) {
+					bad = true
+				}
+			}
+		case *ast.IncDecStmt:
+			if o := identObj(info, s.X); o != nil && (o == i || o == xo) {
+				bad = true
+			}
+		case *ast.UnaryExpr:
+			if s.Op == token.AND {
+				if o := identObj(info, s.X); o != nil && (o == i || o == xo) {
+					bad = true
+				}
+			}
+		}
+		return true
+	})
+	if bad {
+		return nil
+	}
+	return &ast.RangeStmt{For: f.For, Key: iID, TokPos: init.TokPos, Tok: token.DEFINE, X: x, Body: f.Body}
+}
+
+// taglessSwitchAsIf (N9).
+func taglessSwitchAsIf(sw *ast.SwitchStmt) ast.Stmt {
+	if sw.Tag != nil || sw.Init != nil || len(sw.Body.List) == 0 {
+		return nil
+	}
+	leaves := false
+	for _, cc := range sw.Body.List {
+		for _, st := range cc.(*ast.CaseClause).Body {
+			ast.Inspect(st, func(n ast.Node) bool {
+				switch x := n.(type) {
+				case *ast.ForStmt, *ast.RangeStmt, *ast.SwitchStmt, *ast.TypeSwitchStmt, *ast.SelectStmt, *ast.FuncLit:
+					return false // a break in there leaves that construct, not this switch
+				case *ast.BranchStmt:
+					if x.Tok == token.FALLTHROUGH || (x.Tok == token.BREAK && x.Label == nil) {
+						leaves = true
+					}
+				}
+				return true
+			})
+		}
+	}
+	if leaves {
+		return nil
+	}
+	var clauses []*ast.CaseClause
+	var deflt *ast.CaseClause
+	for _, cc := range sw.Body.List {
+		cl := cc.(*ast.CaseClause)
+		if cl.List == nil {
+			deflt = cl
+			continue
+		}
+		if len(cl.List) != 1 {
+			return nil
+		}
+		clauses = append(clauses, cl)
+	}
+	if len(clauses) == 0 {
+		return nil
+	}
+	var tail ast.Stmt
+	if deflt != nil {
+		tail = &ast.BlockStmt{Lbrace: deflt.Colon, List: deflt.Body, Rbrace: deflt.End()}
+	}
+	for k := len(clauses) - 1; k >= 0; k-- {
+		cl := clauses[k]
+		tail = &ast.IfStmt{If: cl.Case, Cond: cl.List[0], Body: &ast.BlockStmt{Lbrace: cl.Colon, List: cl.Body, Rbrace: cl.End()}, Else: tail}
+	}
+	return tail
 }
